@@ -22,6 +22,8 @@ type comparison =
 
 val compOpp : comparison -> comparison
 
+val pred : nat -> nat
+
 val add : nat -> nat -> nat
 
 val mul : nat -> nat -> nat
@@ -620,7 +622,7 @@ val starts_with0 : state -> z list -> state * out
 
 val ends_with : state -> z list -> state * out
 
-val pred : z -> z -> bool
+val pred0 : z -> z -> bool
 
 val pred_none : z -> bool
 
@@ -1085,3 +1087,31 @@ val emit : z -> expr -> zs
 val run_loop : nat -> expr -> expr -> zs -> zs
 
 val run_edit : zs -> zs
+
+type res_match = str * z option
+
+type regex_error =
+| AttributeError0
+| RegexTypeError
+
+val token_matches : (str -> (nat * str) list) -> str -> z -> res_match list
+
+val leaf_matches :
+  (str -> (nat * str) list) -> expr -> res_match list * regex_error option
+
+val search_strs :
+  (str -> (nat * str) list) -> expr list -> res_match list * regex_error
+  option
+
+val search_regex :
+  (str -> (nat * str) list) -> item0 -> res_match list * regex_error option
+
+val find_lit : str -> nat -> nat -> str -> (nat * str) list
+
+val find_literal : str -> str -> (nat * str) list
+
+val enc_match : res_match -> z list
+
+val enc_regex_error : regex_error option -> z
+
+val run_regex : z list -> z list
